@@ -38,7 +38,7 @@ def verify(item):
             meta["apply_output"] = out[-1500:]
             return meta
         sh("git -C %s diff > %s/patch_head.diff" % (wt, "/tmp/wt"), cwd=wt)
-        _, diff = sh("git diff", cwd=wt)
+        _, diff = sh("git diff HEAD", cwd=wt)
         env = {"PYTHONPATH": wt + "/src", "MPLBACKEND": "Agg"}
         t0 = time.time()
         rc, out = sh("%s -m pytest -q -p no:cacheprovider --timeout=900 -x 2>&1 | tail -3" % PY, cwd=wt, env=env)
